@@ -407,7 +407,13 @@ class Ex(StmtMixin, ExprMixin, CallMixin, CompMixin):
       ref, fields = b[1], b[2]
       for f, fs in fields.items():
         hsort = S.DictOf(ref, fs)
-        self.env[self.heap_name(cn, f)] = V(hsort, hsort.fresh('H_%s_%s' % (cn, f)))
+        hv = V(hsort, hsort.fresh('H_%s_%s' % (cn, f)))
+        self.env[self.heap_name(cn, f)] = hv
+        # every object's field value is well-formed (list lengths are non-negative), allocated or not
+        x = ref.fresh('r')
+        inner = self.wf_formula(fs, hsort.get(hv.t, x), 1)
+        if inner is not None:
+          self.assume(z3.ForAll([x], inner, patterns=[hsort.get(hv.t, x)]))
       al = S.SetOf(ref)
       self.env['$H.%s.$alloc' % cn] = V(al, al.fresh('alloc_%s' % cn))
 
